@@ -122,9 +122,10 @@ def run(chk, tier, replay=None):
         i, job = ij
         prefix = os.path.join(chk.dir, "q%04d" % i)
         env = sanlog.env_for(flavour, prefix)
-        to = 60 + int(job.get("burst", 0)) // 4  # the ASan build encodes a few hundred 64x64 pictures per second
+        to = 60 + int(job.get("burst", 0)) // 8  # the ASan build encodes a few hundred 64x64 pictures per second
         r = core.run([exe, job["side"], (ivf + ".ivf") if job["side"] == "dec" else "-"] + job["ops"], timeout=to, env=env)
-        if r.timed_out:
+        # a burst that stopped beyond the 5000-entry packet pool is the known back-pressure block: no second, longer run
+        if r.timed_out and not (job.get("burst") and max([0] + list(parse(r.out)[2].values())) >= 4990):
             r2 = core.run([exe, job["side"], (ivf + ".ivf") if job["side"] == "dec" else "-"] + job["ops"], timeout=150 + 2 * to, env=env)
             if not r2.timed_out:
                 r = r2
